@@ -222,44 +222,56 @@ class Run:
             self.cov["samples"].append(s)
 
     # --- obligations (Lean)
-    def prove(self, module, theorems, extra_targets=()):
-        """Build the property's proof module and audit the axioms of every listed theorem."""
+    def prove(self, module, theorems=None, extra_targets=()):
+        """Build the property's proof module(s) and audit the axioms of every listed theorem.
+        `module` is a module name (with `theorems` a list) or a dict {module: [theorems]}."""
+        mods = module if isinstance(module, dict) else {module: list(theorems or [])}
         rep = extract()
         self.cov["extracted"] = {k: (v if isinstance(v, str) else "ok") for k, v in rep.items()}
         for k, v in rep.items():
             if isinstance(v, str) and (v.startswith("NOT-RECOGNISED") or v.startswith("ERROR")):
                 self.note(f"translator: {k}: {v}")
-        ok, out = lake_build([module] + list(extra_targets))
-        if not ok:
-            errs = re.findall(r"error: ([^\n]*)", out)
-            for t in theorems:
-                self.obligations.append({"name": f"{module}.{t}", "ok": False, "detail": "module does not build"})
-            self.broken_obligation(module, "; ".join(errs[:6]) or out[-1500:])
-            return False
-        ax, raw = audit_axioms(module, theorems)
+        self.cov["checker_cmd"] = f"cd {LEAN} && lake build {' '.join(mods)} && lake env lean <#print axioms of every listed theorem> (python3 check.py {self.pid})"
         allok = True
-        for t in theorems:
-            a = ax.get(t)
-            if a is None:
-                self.obligations.append({"name": f"{module}.{t}", "ok": False, "detail": "theorem not found"})
+        for mod, thms in mods.items():
+            ok, out = lake_build([mod] + list(extra_targets))
+            if not ok:
+                errs = re.findall(r"error: ([^\n]*)", out)
+                for t in thms:
+                    self.obligations.append({"name": f"{t}", "module": mod, "ok": False, "detail": "module does not build"})
+                self.broken_obligation(mod, "; ".join(errs[:6]) or out[-1500:])
                 allok = False
-            elif not set(a) <= ALLOWED_AXIOMS:
-                self.obligations.append({"name": f"{module}.{t}", "ok": False, "detail": f"axioms {a}"})
+                continue
+            ax, raw = audit_axioms(mod, thms)
+            bad = []
+            for t in thms:
+                a = ax.get(t)
+                if a is None:
+                    self.obligations.append({"name": t, "module": mod, "ok": False, "detail": "theorem not found"})
+                    bad.append(t)
+                elif not set(a) <= ALLOWED_AXIOMS:
+                    self.obligations.append({"name": t, "module": mod, "ok": False, "detail": f"axioms {a}"})
+                    bad.append(t)
+                else:
+                    self.obligations.append({"name": t, "module": mod, "ok": True, "detail": f"axioms {a}"})
+            if bad:
                 allok = False
-            else:
-                self.obligations.append({"name": f"{module}.{t}", "ok": True, "detail": f"axioms {a}"})
+                self.broken_obligation(mod, "; ".join(f"{o['name']}: {o['detail']}" for o in self.obligations if not o["ok"]))
+            if self.tier == "thorough":
+                with Lock("lake"):
+                    rc, o = sh(["lake", "env", "leanchecker", mod], cwd=LEAN, timeout=3000)
+                self.cov.setdefault("leanchecker", {})[mod] = "ok" if rc == 0 else o[-500:]
+                if rc != 0:
+                    allok = False
+                    self.broken_obligation(mod, "leanchecker rejects the module: " + o[-300:])
         bad = forbidden_tokens()
         if bad:
             allok = False
             self.obligations.append({"name": "no-forbidden-tokens", "ok": False, "detail": "; ".join(bad[:5])})
-        if not allok:
-            self.broken_obligation(module, "; ".join(f"{o['name']}: {o['detail']}" for o in self.obligations if not o["ok"]))
-        if self.tier == "thorough":
-            with Lock("lake"):
-                rc, o = sh(["lake", "env", "leanchecker", module], cwd=LEAN, timeout=3000)
-            self.cov["leanchecker"] = "ok" if rc == 0 else o[-500:]
-            if rc != 0:
-                self.broken_obligation(module, "leanchecker rejects the module: " + o[-300:])
+            self.broken_obligation("forbidden tokens", "; ".join(bad[:5]))
+        else:
+            self.obligations.append({"name": "no sorry/admit/axiom/native_decide/bv_decide/implemented_by/unsafe in ZkModel, ZkProofs", "ok": True, "detail": "source scan"})
+        self.sample({"obligations": [o["name"] for o in self.obligations[:6]]})
         return allok
 
     def broken_obligation(self, module, detail):
@@ -443,7 +455,7 @@ class Run:
         cov["obligations"] = len(self.obligations)
         cov["discharged"] = sum(1 for o in self.obligations if o["ok"])
         cov["obligation_list"] = self.obligations
-        cov["checker_cmd"] = f"cd {LEAN} && lake build ZkProofs.{self.pid} && lake env lean <#print axioms audit> (check.py {self.pid})"
+        cov.setdefault("checker_cmd", f"python3 check.py {self.pid}")
         cov["trusted_base"] = TRUSTED_BASE
         cov["rule"] = " | ".join(self.rules) if self.rules else "see streams"
         cov["known_findings_confirmed"] = [k[0] for k in self.known_hits]
